@@ -103,7 +103,10 @@ func validateContractRenewal(existing types.FileContractRevision, renewal types.
 		return types.ZeroCurrency, types.ZeroCurrency, types.ZeroCurrency, errors.New("incorrect unlock hash")
 	}
 
-	expectedBurn := baseHostRevenue.Add(baseRiskedCollateral)
+	expectedBurn, overflow := baseHostRevenue.AddWithOverflow(baseRiskedCollateral)
+	if overflow {
+		return types.ZeroCurrency, types.ZeroCurrency, types.ZeroCurrency, errors.New("expected host burn overflows")
+	}
 	hostBurn, underflow := renewal.ValidHostPayout().SubWithUnderflow(renewal.MissedHostPayout())
 	if underflow {
 		return types.ZeroCurrency, types.ZeroCurrency, types.ZeroCurrency, errors.New("host valid payout must be greater than host missed payout")
@@ -130,4 +133,34 @@ func validateContractRenewal(existing types.FileContractRevision, renewal types.
 	}
 
 	return baseHostRevenue, riskedCollateral, lockedCollateral, nil
+}
+
+// renewalBaseCosts calculates the "base" storage cost to the renter and risked
+// collateral for the host for the data already in the contract. If the contract
+// height did not increase, base costs are zero since the storage is already
+// paid for. The window end of the renewal is chosen by the renter, an error is
+// returned if the costs overflow.
+func renewalBaseCosts(existing types.FileContractRevision, renewal types.FileContract, settings rhp2.HostSettings) (baseRevenue, baseCollateral types.Currency, err error) {
+	baseRevenue = settings.ContractPrice
+	if renewal.WindowEnd <= existing.WindowEnd {
+		return baseRevenue, types.ZeroCurrency, nil
+	}
+	extension := uint64(renewal.WindowEnd - existing.WindowEnd)
+	storageCost, overflow := settings.StoragePrice.Mul64WithOverflow(renewal.Filesize)
+	if !overflow {
+		storageCost, overflow = storageCost.Mul64WithOverflow(extension)
+	}
+	if !overflow {
+		baseRevenue, overflow = baseRevenue.AddWithOverflow(storageCost)
+	}
+	if !overflow {
+		baseCollateral, overflow = settings.Collateral.Mul64WithOverflow(renewal.Filesize)
+	}
+	if !overflow {
+		baseCollateral, overflow = baseCollateral.Mul64WithOverflow(extension)
+	}
+	if overflow {
+		return types.ZeroCurrency, types.ZeroCurrency, errors.New("renewal costs overflow")
+	}
+	return baseRevenue, baseCollateral, nil
 }
